@@ -228,19 +228,33 @@ static void OpenDB(char *dbpath, sqlite3 **db)
 static void DropAllTables(sqlite3 *db)
 {
     int rc;
+    size_t i;
     char *err_msg = 0;
-    const char *dropAllObjectsSQL = "SELECT 'DROP TABLE IF EXISTS ' || name || ';' FROM sqlite_master WHERE type = 'table';";
-    /* Execute SQL statement */
-    rc = sqlite3_exec(db, dropAllObjectsSQL, 0, 0, &err_msg);
+    sqlite3_stmt *stmt;
+    strvector *drops;
+    /* The query only generates the DROP statements: collect them, then execute them. */
+    const char *dropAllObjectsSQL = "SELECT 'DROP TABLE IF EXISTS ' || name || ';' FROM sqlite_master WHERE type = 'table' AND name NOT LIKE 'sqlite_%';";
+    initStrVector(&drops);
+    rc = sqlite3_prepare_v2(db, dropAllObjectsSQL, -1, &stmt, 0);
     if(rc != SQLITE_OK){
-        fprintf(stderr, "SQL error: %s\n", err_msg);
-        sqlite3_free(err_msg);
+        fprintf(stderr, "SQL error: %s\n", sqlite3_errmsg(db));
     }
-    #ifdef DEBUG
     else{
-        fprintf(stdout, "Table created successfully\n");
+        while(sqlite3_step(stmt) == SQLITE_ROW){
+            StrVectorAppend(drops, (char*)sqlite3_column_text(stmt, 0));
+        }
+        sqlite3_finalize(stmt);
     }
-    #endif
+
+    for(i = 0; i < drops->size; i++){
+        /* Execute SQL statement */
+        rc = sqlite3_exec(db, drops->data[i], 0, 0, &err_msg);
+        if(rc != SQLITE_OK){
+            fprintf(stderr, "SQL error: %s\n", err_msg);
+            sqlite3_free(err_msg);
+        }
+    }
+    DelStrVector(&drops);
 }
 
 static void CloseDB(sqlite3 *db)
